@@ -14,9 +14,16 @@ Answer format: the observations' answers, each written `<tag>:<answer>`, separat
 of the sub-request whose model answer the observation must equal, or `-` when the observation is not sent to the
 model (then only the oracle judges it).
 """
+import os
 import re
 
 import wire
+
+
+def enabled():
+    """VERIF_NO_PAIR=1 leaves the pair streams out (to measure what the single-instance streams see on their own)"""
+    return os.environ.get("VERIF_NO_PAIR") != "1"
+
 
 SUB = "\x1f"      # stands for the TAB inside a sub-request
 ANS = "\x1e"      # separates the answers
@@ -92,8 +99,8 @@ def compare(impl_ans, model_ans, sub_compare=None):
 PREFIX_RE = re.compile(r"^\{pair obs (\d+)[^}]*\} ")
 
 
-def prefixed(k, inst, failure):
-    return "{pair obs %d on instance %s, %s} %s" % (k, "AB"[inst] if inst < 2 else str(inst), "two live instances", failure)
+def prefixed(k, inst, failure, what="on"):
+    return "{pair obs %d %s instance %s, %s} %s" % (k, what, "AB"[inst] if inst < 2 else str(inst), "two live instances", failure)
 
 
 def unprefix(failure):
@@ -382,7 +389,7 @@ def history_oracle(case, ans, sub_oracle):
         if len(by.get(label, [])) != 1:
             return [f"pair runner: no answer of history {label}"]
         for f in sub_oracle(case["hist"][i], by[label][0]):
-            fails.append(prefixed(i, i, f))
+            fails.append(prefixed(i, i, f, "= the edit history on"))
     if fails:
         return fails[:3]
     steps = [[part.split("~", 2) for part in by[l][0].split("#")] for l in ("hA", "hB")]
